@@ -33,7 +33,7 @@ ASSUMPTIONS = [
     "device configurations are compared only at IR version >= 11; function value info only at IR version >= 10",
 ]
 BUDGET = {"quick": (16, 1400), "thorough": (16, 12000)}
-N_OPS = 18
+N_OPS = 19
 
 
 def strategy(tier, phase):
@@ -301,6 +301,14 @@ def apply_op(c, op):
                             pass
 
 
+    elif k == 18 and len(g.initializers) >= 2:  # tied weights: two differently named initializers of one graph hold ONE tensor object
+        keys = list(g.initializers)
+        src, dst = g.initializers[keys[b % len(keys)]], g.initializers[keys[d % len(keys)]]
+        if src is not dst and src.const_value is not None:
+            dst.const_value = src.const_value
+            dst.type = ir.TensorType(src.const_value.dtype) if dst.type is not None else None
+            dst.shape = ir.Shape(src.const_value.shape.numpy()) if dst.shape is not None else None
+            c.flags.add("tied_initializers")
     elif k == 17 and nodes:  # an input of a node nested at any depth (GRAPH or GRAPHS attribute) is rewired to an outer value
         holders = [(n, a) for n in nodes for a in n.attributes.values() if not a.is_ref() and a.type in (ir.AttributeType.GRAPH, ir.AttributeType.GRAPHS)]
         if holders:
@@ -393,8 +401,13 @@ def execute(case):
         fields = sorted({f"{kd}.{j}" for kd, j in snapshot.diff_fields(snap0, snap1)})
         fails.append((f"side-effect/{','.join(fields)[:60]}", f"to_proto changed the IR: {snapshot.diff(snap0, snap1)}"[:500]))
     fn_graphs = {id(f.graph) for f in model.functions.values()}
-    for v_ in [v for g in c.graphs() if id(g) not in fn_graphs for v in g.initializers.values()]:
-        if v_.const_value is not None and v_.const_value.name != v_.name:
+    inits_ = [v for g in c.graphs() if id(g) not in fn_graphs for v in g.initializers.values()]
+    holders_ = {}  # one tensor object held by several initializers (tied weights) can carry only one of their names
+    for v_ in inits_:
+        if v_.const_value is not None:
+            holders_.setdefault(id(v_.const_value), set()).add(v_.name)
+    for v_ in inits_:
+        if v_.const_value is not None and v_.const_value.name not in holders_[id(v_.const_value)]:
             fails.append(("initializer-tensor-name", f"after to_proto initializer {v_.name!r} has tensor named {v_.const_value.name!r}"))
             break
     p2 = ir.to_proto(model)
